@@ -12,6 +12,7 @@ package daemon
 // and records what happened; every judgement is made by TLC on the recorded trace.
 
 import (
+	"bufio"
 	"context"
 	"encoding/json"
 	"fmt"
@@ -949,6 +950,20 @@ func (d *dDriver) probeLocked(s *dSys, point string) {
 	s.x.emit(vt.M{"ev": "probe", "point": point, "disk": disk, "own": own, "adds": adds})
 }
 
+// lock takes the world lock of the running incarnation; an incarnation that was killed meanwhile (an armed crash
+// point fired in a request still in flight) is replaced by a restarted one first. The driver never freezes.
+func (d *dDriver) lock() *dSys {
+	for {
+		s := d.s
+		s.x.mu.Lock()
+		if !s.x.dead {
+			return s
+		}
+		s.x.mu.Unlock()
+		d.restart()
+	}
+}
+
 func (d *dDriver) quiescent() bool { return len(d.flights) == 0 && d.gcDone == nil }
 
 func (d *dDriver) reap() {
@@ -986,8 +1001,7 @@ func (d *dDriver) obs() {
 	t0 := time.Now()
 	defer func() { d.obsTime += time.Since(t0) }()
 	dSettlePool()
-	s := d.s
-	s.x.enter()
+	s := d.lock()
 	s.x.emit(vt.M{"ev": "obs", "disk": s.diskCopy(), "mem": s.mem(), "own": s.own(), "cloud": s.cloud.snapshot()})
 	s.x.mu.Unlock()
 }
@@ -1007,7 +1021,8 @@ func (d *dDriver) waitOne(f *dFlight, max time.Duration) bool {
 }
 
 func (d *dDriver) call(k string, p, c int, gate string, cancelAt, us int) {
-	s := d.s
+	s := d.lock()
+	s.x.mu.Unlock()
 	for drained := false; !drained; {
 		select {
 		case <-s.k8s.atGate:
@@ -1028,7 +1043,10 @@ func (d *dDriver) call(k string, p, c int, gate string, cancelAt, us int) {
 	} else {
 		ctx, f.cancel = context.WithCancel(base)
 	}
-	s.x.enter()
+	if s != d.lock() {
+		d.s.x.mu.Unlock()
+		return // killed in between; the step is dropped
+	}
 	s.x.emit(vt.M{"ev": "rpc_call", "r": r, "k": k, "p": p, "c": c})
 	switch gate {
 	case "getpod":
@@ -1159,14 +1177,13 @@ func (d *dDriver) gc() {
 	if d.gcDone != nil {
 		return
 	}
-	s := d.s
+	s := d.lock()
 	d.nextG++
 	g := d.nextG
 	done := make(chan struct{})
 	d.gcDone = done
 	x := s.x
 	svc := s.svc
-	x.enter()
 	x.emit(vt.M{"ev": "gc_call", "g": g})
 	x.mu.Unlock()
 	go func() {
@@ -1240,7 +1257,7 @@ func (d *dDriver) step(st vt.M) {
 	switch vt.Str(st["a"]) {
 	case "pod":
 		p := vt.Int(st["p"])
-		s.x.enter()
+		s = d.lock()
 		s.k8s.pods[p] = &dPod{api: vt.Bool(st["api"]), loc: vt.Str(st["loc"]), sticky: vt.Bool(st["sticky"]), cached: vt.Bool(st["cached"])}
 		s.x.emit(vt.M{"ev": "env_pod", "p": p, "api": vt.Bool(st["api"]), "loc": vt.Str(st["loc"]), "sticky": vt.Bool(st["sticky"]), "cached": vt.Bool(st["cached"])})
 		s.x.mu.Unlock()
@@ -1270,7 +1287,7 @@ func (d *dDriver) step(st vt.M) {
 		d.joinAll()
 	case "detach":
 		e := vt.Int(st["e"])
-		s.x.enter()
+		s = d.lock()
 		s.cloud.cmu.Lock()
 		_, had := s.cloud.enis[e]
 		delete(s.cloud.enis, e)
@@ -1280,12 +1297,12 @@ func (d *dDriver) step(st vt.M) {
 		}
 		s.x.mu.Unlock()
 	case "apierr":
-		s.x.enter()
+		s = d.lock()
 		s.k8s.apiErr = vt.Bool(st["on"])
 		s.x.emit(vt.M{"ev": "env_apierr", "on": s.k8s.apiErr})
 		s.x.mu.Unlock()
 	case "listerr":
-		s.x.enter()
+		s = d.lock()
 		s.k8s.listErr = vt.Bool(st["on"])
 		s.x.mu.Unlock()
 	case "plan":
@@ -1295,7 +1312,7 @@ func (d *dDriver) step(st vt.M) {
 		}
 		s.cloud.cmu.Unlock()
 	case "crashat":
-		s.x.mu.Lock()
+		s = d.lock()
 		d.arm.point, d.arm.n = vt.Str(st["point"]), vt.Int(st["n"])
 		if d.arm.n <= 0 {
 			d.arm.n = 1
@@ -1687,14 +1704,30 @@ func TestVerifKill(t *testing.T) {
 			t.Fatal(err)
 		}
 		lines := make(chan string, 1<<16)
+		started := make(chan struct{})
 		go func() {
-			b, _ := io.ReadAll(pipe)
-			for _, l := range strings.Split(string(b), "\n") {
+			sc := bufio.NewScanner(pipe)
+			sc.Buffer(make([]byte, 1<<16), 1<<20)
+			first := true
+			for sc.Scan() {
+				l := sc.Text()
+				if first && strings.HasPrefix(l, "B ") {
+					first = false
+					close(started)
+				}
 				lines <- l
+			}
+			if first {
+				close(started)
 			}
 			close(lines)
 		}()
-		time.Sleep(time.Duration(15+rng.Intn(60))*time.Millisecond + time.Duration(rng.Intn(1000))*time.Microsecond)
+		select {
+		case <-started: // the child is streaming
+		case <-time.After(20 * time.Second):
+			t.Fatalf("kill child did not start")
+		}
+		time.Sleep(time.Duration(rng.Intn(40))*time.Millisecond + time.Duration(rng.Intn(1000))*time.Microsecond)
 		_ = cmd.Process.Signal(syscall.SIGKILL)
 		_ = cmd.Wait()
 		w.Emit(vt.M{"ev": "reset", "scen": k, "fam": "kill", "cloud": []vt.M{{"e": 1, "as": []int{1, 2, 3, 4, 5, 6}}, {"e": 2, "as": []int{}}},
